@@ -408,10 +408,10 @@ class Unit:
                 tg = [t.strip() for t in mm.group(3).split(',')] if mm.group(3) else deftags
                 lines, i = self.parse_block(i + 1)
                 loops[int(mm.group(1))] = (tg, lines)
-            elif s.startswith('//@before '):
-                mm = re.match(r'//@before\s+(\d+)\s+/(.*)/\s*$', s)
+            elif s.startswith('//@before ') or s.startswith('//@after '):
+                mm = re.match(r'//@(before|after)\s+(\d+)\s+/(.*)/\s*$', s)
                 lines, i = self.parse_block(i + 1)
-                befores.append((int(mm.group(1)), mm.group(2), lines))
+                befores.append((int(mm.group(2)), mm.group(3), lines, mm.group(1)))
             elif s.startswith('//@canary '):
                 lab, rest = s[len('//@canary '):].split(' :: ', 1)
                 a, b = rest.split(' => ', 1)
@@ -489,7 +489,7 @@ class Unit:
                 lost.append('loop %d' % k)
                 continue
             inserts.append((b0, tg, lines, 'loopinv'))
-        for k, pat, lines in befores:
+        for k, pat, lines, where in befores:
             m = rsx.mask(body)
             ms = [mm for mm in rsx.find_code(body, m, pat)]
             if k == 0:
@@ -497,9 +497,13 @@ class Unit:
                 inserts.append((pos, deftags, [''] + lines, 'proof'))
                 continue
             if len(ms) < k:
-                lost.append('before %d /%s/' % (k, pat))
+                lost.append('%s %d /%s/' % (where, k, pat))
                 continue
-            pos = body.rfind('\n', 0, ms[k - 1].start()) + 1
+            if where == 'after':
+                pos = body.find('\n', ms[k - 1].end())
+                pos = len(body) if pos < 0 else pos + 1
+            else:
+                pos = body.rfind('\n', 0, ms[k - 1].start()) + 1
             inserts.append((pos, deftags, lines, 'proof'))
         inserts.sort(key=lambda x: -x[0])
         segs = []  # (text, tags, kind)
